@@ -183,7 +183,9 @@ class Ref:
             ct = P("e")
             return ("\\" + fn.strip() if fn.strip() in FUNCS else fn) + "{" + ct + "}"
         if tag == "bar":
-            return "\\overline{" + P("e") + "}"
+            # a bar placed below the base (m:barPr/m:pos = bot) may be rendered as an underline (optional feature variant)
+            below = self.hide_on and (own_val(e, "barPr", "pos", "top") or "").strip().lower() == "bot"
+            return ("\\underline{" if below else "\\overline{") + P("e") + "}"
         if tag == "acc":
             a = own_val(e, "accPr", "chr", "̂")
             return ACC.get(a, "\\hat") + "{" + P("e") + "}"
@@ -231,6 +233,7 @@ def structures(ops):
         yield E("m", E("mr", E("e", *ops[j])))
         yield E("m", E("mPr", E("mcs")), E("mr", E("e", run("p")), E("e", *ops[j])), E("mr", E("e", *ops[j - 1]), E("e", run("q"))))
     yield from flagged()
+    yield from with_properties()
     yield from mk("func", opt(E("fName", run("sin")), E("fName", run(" lim ")), E("fName", run("f")), E("fName")), W("e"))
     yield from mk("bar", opt(E("barPr", E("pos", val="top"))), W("e"))
     apr = [None, E("accPr")] + [E("accPr", c) for c in chr_alts("chr", ["̃", "⃗", "x", ""])]
@@ -254,6 +257,37 @@ def flagged():
                 E("sub", run("i")), E("sup", run("n")), E("e", run("x")))
         yield E("f", E("fPr", E("type", val="noBar")), E("num", run("a")), E("den", run("b")))
         yield E("r", E("rPr", fl("nor", v), E("sty", val="b")), E("t", text="w"))
+
+
+# property children of every structure: each with its m:val absent and with sample values (schema enumerations / on-off)
+PROPS = {
+    "f": ("fPr", [("type", ["bar", "noBar", "lin", "skw"])]),
+    "rad": ("radPr", [("degHide", ["1", "off"])]),
+    "nary": ("naryPr", [("chr", ["∫"]), ("limLoc", ["undOvr", "subSup"]), ("grow", ["1", "0"]), ("subHide", ["off"]), ("supHide", ["0"])]),
+    "d": ("dPr", [("begChr", ["["]), ("sepChr", ["|"]), ("endChr", ["]"]), ("grow", ["on"]), ("shp", ["centered", "match"])]),
+    "m": ("mPr", [("baseJc", ["center", "top", "bot"]), ("plcHide", ["1"]), ("rSpRule", ["0"]), ("cGp", ["120"])]),
+    "func": ("funcPr", [("ctrlPr", [])]),
+    "bar": ("barPr", [("pos", ["top", "bot", "BOT"])]),
+    "acc": ("accPr", [("chr", ["̃"])]),
+    "sSup": ("sSupPr", [("ctrlPr", [])]),
+    "sSub": ("sSubPr", [("ctrlPr", [])]),
+    "sSubSup": ("sSubSupPr", [("alnScr", ["1"])]),
+    "box": ("boxPr", [("opEmu", ["1"]), ("noBreak", ["0"]), ("diff", ["on"])]),
+    "groupChr": ("groupChrPr", [("chr", ["⏟"]), ("pos", ["bot", "top"]), ("vertJc", ["top"])]),
+}
+OPERANDS = {"f": ("num", "den"), "rad": ("deg", "e"), "nary": ("sub", "sup", "e"), "d": ("e",), "func": ("fName", "e"), "bar": ("e",),
+            "acc": ("e",), "sSup": ("e", "sup"), "sSub": ("e", "sub"), "sSubSup": ("e", "sub", "sup"), "box": ("e",), "groupChr": ("e",)}
+
+
+def with_properties():
+    """every structure with plain operands and ONE property child: without m:val, and with each sample value"""
+    for tag, (pr, children) in PROPS.items():
+        ops = [E("mr", E("e", run("x")), E("e", run("y")))] if tag == "m" else \
+            [E(n, run("sin" if n == "fName" else "x")) for n in OPERANDS[tag]]
+        yield E(tag, E(pr), *ops)
+        for (name, vals) in children:
+            for v in [None] + list(vals):
+                yield E(tag, E(pr, E(name) if v is None else E(name, val=v)), *ops)
 
 
 LEAF_TEXTS = ["x", "(", ")", "a)b", "[", "]", " ", "", None, "α", "ℝ≤∞", "( ", "y]", "α)x", "a≤b]c"]
